@@ -469,7 +469,10 @@ def b_prim(rnd):
                        {"type": ["string", "integer", "null"]}, {"type": ["boolean", "number", "null"]}, {"type": ["string", "integer"]},
                        {"type": "object", "additionalProperties": {"type": ["boolean", "number", "null"]}}, {"type": "array", "items": {"type": ["string", "integer", "null"]}},
                        # open string with known values whose Rust identifiers collide
-                       {"anyOf": [{"type": "string"}, {"type": "string", "enum": ["gpt-4", "gpt_4", "GPT-4", "other"]}]}])
+                       {"anyOf": [{"type": "string"}, {"type": "string", "enum": ["gpt-4", "gpt_4", "GPT-4", "other"]}]},
+                       # unions of const values, alone and next to an open variant
+                       {"oneOf": [{"const": "up"}, {"const": "down"}]}, {"oneOf": [{"const": "on"}, {"const": "off"}, {"type": "integer"}]},
+                       {"anyOf": [{"const": "low", "description": "little"}, {"const": "high"}, {"type": "boolean"}]}])
 
 
 def b_object(rnd, names, closed_p=0.2, depth=0):
@@ -589,6 +592,8 @@ def b_instance(rnd, s, comps, depth=0):
             o["zx_attempt"] = rnd.choice([3, 0])
         return o
     t = s.get("type")
+    if "const" in s:
+        return s["const"]
     if "enum" in s:
         return rnd.choice(s["enum"])
     if "anyOf" in s and all(v.get("type") == "string" for v in s["anyOf"]):
